@@ -506,6 +506,22 @@ class WrapFS(FS, typing.Generic[_F]):
         with unwrap_errors(path):
             _fs.writebytes(_path, contents)
 
+    def writetext(
+        self,
+        path,  # type: Text
+        contents,  # type: Text
+        encoding="utf-8",  # type: Text
+        errors=None,  # type: Optional[Text]
+        newline="",  # type: Text
+    ):
+        # type: (...) -> None
+        self.check()
+        _fs, _path = self.delegate_path(path)
+        with unwrap_errors(path):
+            _fs.writetext(
+                _path, contents, encoding=encoding, errors=errors, newline=newline
+            )
+
     def upload(self, path, file, chunk_size=None, **options):
         # type: (Text, BinaryIO, Optional[int], **Any) -> None
         self.check()
